@@ -75,7 +75,8 @@ def C(name, params=(), kind='plain', bases=(), abstract=False, extra=False,
         # [param name, abstract value]: __init__ refuses exactly that value
         'raisesif': list(raisesif),
         'strmixin': strmixin,
-        'ydefaults': list(ydefaults),
+        # class-level _yatiml_defaults: [[param, abstract value], ...]
+        'hasydef': bool(ydefaults), 'ydefaults': [list(x) for x in ydefaults],
         'yattrs': list(yattrs), 'noargsexc': noargs_exc,
         'kwonly': list(kwonly),
     }
@@ -442,6 +443,22 @@ def models():
     ms.append(M('index', [u3, it, hx], [K('Hx')],
                 keys=['items', 'abc', 'price', 'name'], scalars=[S_42, S_ABC],
                 qn=7, tn=7, rootk='m', nodup=True, qtags=(), rtypes=[]))
+    # ---- class-level _yatiml_defaults inherited by a subclass ---------------------
+    pa2 = C('Pa2', [P('n', STR), P('kind', STR, ['str', 'abc']),
+                    P('i', INT, ['int', '42'])],
+            ydefaults=[['i', ['int', '7']]], swe=['remove_defaults', 'Pa2'])
+    sp2 = C('Sp2', [P('n', STR), P('kind', STR, ['str', 'red']),
+                    P('i', INT, ['int', '42'])], bases=['Pa2'],
+            swe=['remove_defaults', 'Sp2'])
+    ms.append(M('ydef', [pa2, sp2], [K('Pa2'), K('Sp2')], keys=['n', 'kind', 'i'],
+                scalars=[S_42, S_ABC, S_RED, S_7], strs=['abc', 'red'],
+                family='dump', qn=1, tn=1, qo=4, to=4, rtypes=[]))
+    # ---- an enum that mixes in str ---------------------------------------------------
+    lv = C('Lv', kind='enum', members=['hi', 'lo'], strmixin=True)
+    hl = C('Hl', [P('lv', K('Lv')), P('m', D(INT, K('Lv')), ['dict', []])])
+    ms.append(M('strenum', [lv, hl], [K('Lv'), K('Hl'), L(K('Lv'))],
+                keys=['lv', 'm', 'hi'], scalars=[['str', 'hi'], ['str', 'lo'], S_42],
+                strs=['hi'], qn=4, tn=4, qo=4, to=5))
     # ---- long and unusual strings as attributes of an object -------------------
     ls = C('Ls', [P('d', STR), P('e', STR, ['str', 'abc'])])
     ms.append(M('longstr', [ls], [K('Ls'), L(STR), D(STR)], keys=['d', 'e'],
